@@ -69,7 +69,7 @@ impl Gadget {
                 SimpleValue::Enum(s) if self.kind.no_enum_prefix() => {
                     tag.push_attribute((k.as_str(), expr::strip_enum_prefix(s)))
                 }
-                _ => tag.push_attribute((k.as_str(), v.to_string().as_str())),
+                _ => tag.push_attribute(xmlutil::escaped_attribute(k, &v.to_string())),
             }
         }
         writer.write_event(Event::Start(tag.borrow()))?;
